@@ -1057,3 +1057,6 @@ def replay(w):
     ch = Chooser(w["choices"])
     judge(w["cfg"], ch, run_schedule(w["cfg"], ch), res, set())
     return res.violations
+
+
+RULE += " Configurations also use send_from with an async source that is suspended (at a gate of its own) before every item and before it ends. A late-comer drains every closed channel (O2b: an item whose send returned before close() is never lost for good). Directed 'window' scenarios: with 1-2 receivers blocked, send / close / a second receiver or a done() poll arriving 0..3 loop iterations later / cancel or timeout of the woken receiver happen in one step of the driving coroutine (3528 scenarios); 'backlog' scenarios: 10..200 items queued before the only receiver starts, cancel / timeout after 1..3 loop iterations (288 scenarios)."
